@@ -40,15 +40,27 @@ FMT_NOTE = ("Trusted: Lean kernel and the axioms propext / Classical.choice / Qu
             "styles, tabdance, tooltip mode, Unicode case folding and invalid UTF-8 are outside the model.")
 
 PROPS = {
-    "C02": {"modules": ["Carapace.Props.C02"], "ops": [("value", {"quick": 6000, "thorough": 300000})], "rule": FMT_RULE, "assumptions": FMT_ASSUME},
+    "C02": {"modules": ["Carapace.Props.C02"], "ops": [("value", {"quick": 6000, "thorough": 300000})], "rule": FMT_RULE, "assumptions": FMT_ASSUME,
+            "claimed": True, "engine": "fmt",
+            "level_text": ("Theorems over the model of the pipeline: the prefix filter is sound and complete (`filterPrefix_sound/complete`), the candidates handed to a formatter are exactly the invoked candidates extending the typed word - all of them under CARAPACE_UNFILTERED (`C02_pipeline_exact`, `C02_unfiltered_length`, `C02_nothing_added`), sanitising preserves 'extends the typed word' (`san_prefix`, `C02_fish_sound`); the bash/tcsh common-prefix step is proved harmless when not taken and its violation under case-insensitive matching is a decided counterexample and a listed finding. The model is bound to the code by exact comparison of the output of all 13 formatters on every generated case; the property oracle (every emitted text extends the typed word, every extending candidate is emitted, nothing else) is evaluated on the real output."),
+            "level_note": FMT_NOTE},
     "C03": {"modules": ["Carapace.Props.C03"], "ops": [("value", {"quick": 6000, "thorough": 300000})], "rule": FMT_RULE, "assumptions": FMT_ASSUME,
             "claimed": True, "engine": "fmt",
             "level_text": ("Per shell a theorem `C03_<shell>` states that the text the formatter model inserts, read by that shell's reader specification, is exactly one word equal to the sanitised value, for every value (induction over the string; the per-character obligations are decided by the kernel over all of ASCII against the replacer tables and character sets regenerated from /repo, and lifted to every character). "
                            "Where the pinned code violates the property the class is an explicit hypothesis and a listed finding. The model is bound to the code by exact comparison of the real formatter output with the model's on every generated case, and the reader oracle is evaluated on the real output."),
             "level_note": FMT_NOTE},
-    "C04": {"modules": ["Carapace.Props.C04"], "ops": [("value", {"quick": 6000, "thorough": 300000})], "rule": FMT_RULE, "assumptions": FMT_ASSUME},
-    "C05": {"modules": ["Carapace.Props.C05"], "ops": [("value", {"quick": 6000, "thorough": 300000})], "rule": FMT_RULE, "assumptions": FMT_ASSUME},
-    "C06": {"modules": ["Carapace.Props.C06"], "ops": [("value", {"quick": 6000, "thorough": 300000})], "rule": FMT_RULE, "assumptions": FMT_ASSUME},
+    "C04": {"modules": ["Carapace.Props.C04"], "ops": [("value", {"quick": 6000, "thorough": 300000})], "rule": FMT_RULE, "assumptions": FMT_ASSUME,
+            "claimed": True, "engine": "fmt",
+            "level_text": ("`C04_fish` and `C04_bash_framing`: decoding the emitted text with the consumer's own parsing yields exactly one record per candidate with that candidate's own fields, for any text in any field (framing lemmas `splitOnChar_joinChar`, `cutChar_append` + the sets of characters each sanitizer strips, decided on the tables regenerated from /repo); no-line-break theorems for bash, elvish, nushell; record counts for the JSON formats; decided counterexamples for the listed findings (bash-ble, cmd-clink). All 13 formats are additionally under exact output correspondence and the decode-and-compare oracle on the real output."),
+            "level_note": FMT_NOTE},
+    "C05": {"modules": ["Carapace.Props.C05"], "ops": [("value", {"quick": 6000, "thorough": 300000})], "rule": FMT_RULE, "assumptions": FMT_ASSUME,
+            "claimed": True, "engine": "fmt",
+            "level_text": ("`matches_iff` / `matches_eq_spec` (the matcher is exactly 'ends in a no-space character or the set is *'), `add_star`, `mem_add` (Add is set union with * absorbing), the effective set computed by the pipeline (`C05_export`, `C05_messages_force`, `C05_env_adds`), and per format that the expressed decision is a function of the (sanitised) value taken before quoting (elvish, bash-ble, nushell, powershell, ion, zsh incl. the FULL quoting states, bash single candidate and common-prefix step); xonsh decides on the quoted text: decided counterexample, partial theorem, listed finding. Exact output correspondence and the no-space oracle on the real output for all formats."),
+            "level_note": FMT_NOTE},
+    "C06": {"modules": ["Carapace.Props.C06"], "ops": [("value", {"quick": 6000, "thorough": 300000})], "rule": FMT_RULE, "assumptions": FMT_ASSUME,
+            "claimed": True, "engine": "fmt",
+            "level_text": ('`integrateLoop_spec`: the numbering loop terminates within its fuel (pigeonhole over injective names, `findFree_spec`, `errName_inj`) and appends exactly one entry per message, in order, with the message as description, values pairwise distinct and distinct from all candidates; `C06_two_entries` (at least two entries), `C06_nospace` (no trailing space), the channel formats (list read from the source) leave candidates alone and carry the messages; the filler `_` fails to extend a typed word ending in E/ER/ERR: decided counterexample, partial theorem, listed finding. Exact output correspondence and the message oracle on the real output for all formats.'),
+            "level_note": FMT_NOTE},
 }
 
 
